@@ -88,6 +88,13 @@ def observations(side, idx, nobs):
 def make_results(grid, side, nobs=1, acc=False):
     from pyphysim.simulations.results import Result, SimulationResults
     params = make_params(grid, ints_when_integral=(side == 0))
+    if side == 1 and len(grid) >= 1 and len(grid[0]) >= 2:
+        # the values of one unpacked parameter were first shorter and then reassigned by item syntax, with the number of
+        # variations read in between (nothing may remember the old count)
+        full = params[NAMES[0]]
+        params[NAMES[0]] = full[:1]
+        params.get_num_unpacked_variations()
+        params[NAMES[0]] = full
     sr = SimulationResults()
     sr.set_parameters(params)
     n = params.get_num_unpacked_variations()
@@ -141,6 +148,21 @@ def run_lookup(case):
     got2 = [int(x) for x in np.atleast_1d(params.get_pack_indexes(dict(fixed, zz_scalar=7)))]
     if got2 != want:
         return f"get_pack_indexes with an extra fixed scalar = {got2}, expected {want}"
+    # a value that was never simulated selects nothing, however close it lies to a simulated one
+    for name, val in fixed.items():
+        if isinstance(val, float):
+            near = val * (1 + 5e-4) if val else 1e-13
+            grid_vals = [VALUES[NAMES.index(name)][v] for v in case["g"][NAMES.index(name)]]
+            if near in grid_vals:
+                continue
+            try:
+                got3 = params.get_pack_indexes(dict(fixed, **{name: near}))
+            except ValueError:
+                continue
+            except Exception as ex:      # noqa
+                return f"get_pack_indexes with {name}={near!r} (not a simulated value) raised {type(ex).__name__}: {ex}"
+            return (f"get_pack_indexes with {name}={near!r}, which is not one of the simulated values {grid_vals}, returned "
+                    f"{np.atleast_1d(got3).tolist()} instead of raising ValueError")
     sr = make_results(case["g"], 0)
     for fx in (fixed, dict(fixed, zz_scalar=7)) + ((None,) if not fixed else ()):
         vals = sr.get_result_values_list("s", fixed_params=fx) if fx is not None else sr.get_result_values_list("s")
